@@ -14,8 +14,8 @@ VARIANTS = [
                                              "            if self.check and not isinstance(test, unittest.suite.TestSuite):\n                cases.add('%s.%s' % (test.__class__.__module__,\n                                     test.__class__.__name__))\n            newsuite.addTest(test)"),
       rule='C19-CHECKMODE', key='check=True,item=a ReferenceTestCase'),
     M('C19', 'long-option-overwrites-flags', E(TC, "                if option in ('-0', '--istagged'):\n                    check = True\n                else:\n                    tagged = True", "                check = option == '--istagged'\n                tagged = not check"),
-      rule='C19-FLAGS', key='monotone'),
-    M('C19', 'short-flag-sets-wrong-variable', E(TC, "                elif flag == '0':\n                    check = True", "                elif flag == '0':\n                    tagged = True"), rule='C19-FLAGS', key='wiring:check'),
+      rule='C19-FLAGS', key='argv='),
+    M('C19', 'short-flag-sets-wrong-variable', E(TC, "                elif flag == '0':\n                    check = True", "                elif flag == '0':\n                    tagged = True"), rule='C19-FLAGS', key='argv=-0'),
     M('C19', 'loader-only-when-tagged', E(TC, "    loader = (TaggedTestLoader(check) if tagged or check", "    loader = (TaggedTestLoader(check) if tagged"), rule='C19-CHECKMODE', key='loader-choice'),
     M('C19', 'refactor-loop-var-renamed', [E(TC, "    for i, arg in enumerate(argv[1:], 1):", "    for idx, arg in enumerate(argv[1:], start=1):"),
                                              E(TC, "            argv[i] = '' if arg == '-' else arg", "            argv[idx] = '' if arg == '-' else arg")], kind='refactor'),
